@@ -38,6 +38,19 @@ Theorem C02_closure_effect_refuted :
   /\ fst (w_run w_closure_event (VObj [])) = Failed.
 Proof. vm_compute. auto. Qed.
 
+(* true && .i — with a constant-true left operand Op::type_info keeps the right operand's fallibility
+   but never checks its kind against null-or-boolean; `true && -7` fails *)
+Theorem C02_and_true_rhs_refuted :
+  w_fallible w_and_true = false /\ w_reason w_and_true = 130%N /\ fst (w_run w_and_true ev_i_int) = Failed.
+Proof. vm_compute. auto. Qed.
+
+(* (1 / 0) / 7 — the type of a division starts from a fresh TypeDef::float(), so with a constant non-zero
+   divisor the whole expression is infallible whatever the left operand is: the failing inner division
+   goes unnoticed *)
+Theorem C02_div_lhs_fallible_refuted :
+  w_fallible w_div_lhs = false /\ w_reason w_div_lhs = 131%N /\ fst (w_run w_div_lhs (VObj [])) = Failed.
+Proof. vm_compute. auto. Qed.
+
 (* the documented exception is modelled: a constant float operation that produces NaN (here inf - inf,
    both built by constant multiplication) is typed fallible, and it fails at run time *)
 Example C02_nan_exception_typed :
